@@ -548,6 +548,9 @@ func (l *layer) prefetch(ctx context.Context, prefetchSize int64) error {
 		}
 		// override the prefetch size with optimized value
 		prefetchSize = offset
+		if prefetchSize < 0 || prefetchSize > l.blob.Size() {
+			return fmt.Errorf("invalid offset %d of prefetch landmark in the blob of size %d", offset, l.blob.Size())
+		}
 	} else if prefetchSize > l.blob.Size() {
 		// adjust prefetch size not to exceed the whole layer size
 		prefetchSize = l.blob.Size()
